@@ -459,6 +459,7 @@ def check_cob_formulas(facts, rep):
                       where=cn[0].where())
     else:
         rep.ok('E8.F4-cobordism-formulas', 'CobComp::connect|the genus is recomputed whenever the boundary is merged', 'every merging path writes genus')
+    _stack_genus_paths(facts, rep, st[0])
     inst = 'genus recomputation|g = (2 - (x1 + x2 + b) + a)/2 in connect and stack_comps'
     want = (2, -1, (-1, -1, 1))
     if len(forms) == 2 and all(v == want for v in forms.values()):
@@ -470,6 +471,112 @@ def check_cob_formulas(facts, rep):
                       'the genus of a glued cobordism is recomputed as (const, coef of #boundary, other coefs) = %s; both sites must be (2, -1, (-1, -1, +1)), i.e. 2g = 2 - (chi1 + chi2 + b) + a' % forms,
                       where=cn[0].where())
 
+
+def _stack_genus_paths(facts, rep, b):
+    """every returning path of Cob::stack_comps that builds a component gives it the Euler genus - or, when it lets the
+    genera of the parts just add up, is guarded so that at most ONE component (arc or circle) lies on the gluing
+    interface: two pieces glued along two components already form a handle (saddle on a tube: two arcs; torus: two
+    circles), whatever the kind of the components. The guard is folded over (#arcs, #circles) in 0..3 x 0..3."""
+    inst = 'Cob::stack_comps|genus from the Euler characteristic on every path that glues along >= 2 interface components'
+
+    def closure_ret(name):
+        cb = facts.bodies.get(name)
+        if cb is None:
+            return None
+        rr = [q.ret for q in SymEx(cb).run() if q.end == 'return' and q.ret is not None]
+        return rr[0] if len(rr) == 1 else None
+
+    def count_kind(t):
+        """sum(map(iter(bot|top), |c| c.tgt|src .comps().filter(is_circle|is_arc).count())) -> 'circ' | 'arc'"""
+        t = strip(t)
+        if not (t[0] == 'call' and t[1].split('::')[-1] == 'sum' and len(t[2]) == 1):
+            return None
+        m = strip(t[2][0])
+        if not (m[0] == 'call' and m[1].split('::')[-1] == 'map' and len(m[2]) == 2 and strip(m[2][1])[0] == 'closure'):
+            return None
+        src = sk(m[2][0])
+        if not re.match(r'^iter\(deref\(&?arg[23]\)\)$|^iter\(&?\*?arg[23]\)$', src.replace('&', '')) and not re.match(r'^iter\(deref\(arg[23]\)\)$', src.replace('&', '')):
+            return None
+        r = closure_ret(strip(m[2][1])[1])
+        if r is None:
+            return None
+        r = strip(r)
+        if not (r[0] == 'call' and r[1].split('::')[-1] == 'count' and len(r[2]) == 1):
+            return None
+        f = strip(r[2][0])
+        if not (f[0] == 'call' and f[1].split('::')[-1] == 'filter' and len(f[2]) == 2 and strip(f[2][1])[0] == 'closure' and re.search(r'comps\(&?\*?arg2\.(tgt|src)\)', sk(f[2][0]))):
+            return None
+        side = re.search(r'arg2\.(tgt|src)', sk(f[2][0])).group(1)
+        which = 'arg2' if 'arg2' in src else 'arg3'
+        if (which, side) not in (('arg2', 'tgt'), ('arg3', 'src')):
+            return None       # not the gluing interface
+        pr = closure_ret(strip(f[2][1])[1])
+        ps_ = sk(strip(pr)) if pr is not None else ''
+        if re.match(r'^is_circle\(\*?arg2\)$', ps_):
+            return 'circ'
+        if re.match(r'^is_arc\(\*?arg2\)$', ps_):
+            return 'arc'
+        return None
+
+    def additive(v):
+        v = strip(v)
+        if not (v[0] == 'call' and v[1].split('::')[-1] == 'sum' and len(v[2]) == 1):
+            return False
+        m = strip(v[2][0])
+        if not (m[0] == 'call' and m[1].split('::')[-1] == 'map' and len(m[2]) == 2 and strip(m[2][1])[0] == 'closure'):
+            return False
+        if not re.match(r'^chain\(iter\((deref\()?arg[23]\)?\), iter\((deref\()?arg[23]\)?\)\)$', sk(m[2][0]).replace('&', '')):
+            return False
+        r = closure_ret(strip(m[2][1])[1])
+        return r is not None and re.match(r'^\*?arg2\.genus$', sk(strip(r))) is not None
+    n_euler = 0
+    try:
+        paths = SymEx(b, havoc_loops=True, max_paths=20000).run()
+    except TooManyPaths as e:
+        rep.indet('E8.F4: %s' % e)
+        return
+    for p in paths:
+        if p.end != 'return':
+            continue
+        gv = [v for (root, path), v in p.state.mem.items() if path and path[-1] == 'genus' and root[0] == 'local']
+        if not gv:
+            continue
+        v = gv[-1]
+        inner = v
+        while inner[0] == 'cast':
+            inner = inner[2]
+        if inner[0] == 'bin' and inner[1] == 'Div' and inner[3] == ('const', 2):
+            n_euler += 1
+            continue
+        if not additive(v):
+            rep.indet('E8.F4: a path of Cob::stack_comps sets the genus to %s' % sk(v)[:100])
+            return
+        guards = []
+        unknown = None
+        for c in p.branches():
+            t = c.term
+            s_ = sk(t)
+            if (c.name or '').startswith('assert:') or s_.startswith('is_empty(') or re.search(r'WithOverflow\(.*\)\.1$', s_):
+                continue
+            if t[0] == 'bin' and t[1] in ('Eq', 'Ne', 'Lt', 'Le', 'Gt', 'Ge') and t[3][0] == 'const' and count_kind(t[2]):
+                guards.append((t[1], count_kind(t[2]), t[3][1], c.value != 0))
+            else:
+                unknown = s_[:80]
+        if unknown:
+            rep.indet('E8.F4: a path of Cob::stack_comps lets the genera add up under a guard outside the recognised fragment: %s' % unknown)
+            return
+        ops = {'Eq': lambda x, y: x == y, 'Ne': lambda x, y: x != y, 'Lt': lambda x, y: x < y, 'Le': lambda x, y: x <= y, 'Gt': lambda x, y: x > y, 'Ge': lambda x, y: x >= y}
+        hit = [(a_, c_) for a_ in range(4) for c_ in range(4) if a_ + c_ >= 2 and all(ops[o]({'arc': a_, 'circ': c_}[k], n) == tv for o, k, n, tv in guards)]
+        if hit:
+            rep.violation('E8.F4-cobordism-formulas', inst,
+                          'Cob::stack_comps has a path (guard: %s) on which the genera of the pieces just add up although %d arcs and %d circles may lie on the gluing interface: pieces glued along two or more components form a handle (a saddle stacked on a tube is glued along two arcs), the neck-cutting term is lost and the entry d - c a^-1 b of the reduced complex is wrong' % (
+                              ', '.join('%s(#%s, %d) is %s' % g for g in guards) or 'none', hit[0][0], hit[0][1]),
+                          where=b.where())
+            return
+    if n_euler:
+        rep.ok('E8.F4-cobordism-formulas', inst, '%d path(s), Euler form' % n_euler)
+    else:
+        rep.indet('E8.F4: no path of Cob::stack_comps computes a genus')
 
 # ------------------------------------------------------------------ F6
 
